@@ -6,6 +6,7 @@ CONSTANTS
   Rets <- RetsAll
   Advs <- AdvsExact
   Decs <- DecsAll
+  BFaults <- BFaultsNone
   Ras <- RasSome
   Modes = {"call", "exec"}
   NRuns = 1
